@@ -23,6 +23,9 @@ type Feed struct {
 
 type Work struct {
 	Feeds []Feed `json:"feeds"`
+	// Twice: the parties hand the very same objects in again in a second generation (a fresh file
+	// manager); the second assembly is the one that is judged
+	Twice bool `json:"twice,omitempty"`
 }
 
 // RespFile is one file of the assembled output.
